@@ -57,6 +57,15 @@ def main(run):
         run.report({"kind": "pool-scenario", "symptom": code}, {"scenario": strip(byid[sid]), "observation": {k: ob[sid].get(k) for k in ("snaps", "stuck", "reqs", "crash", "stderr")}, "disagreement": CAP_CODES[code]},
                    "C06: pool (%d,%d): %s" % (byid[sid]["min"], byid[sid]["max"], CAP_CODES[code]))
     bad_shape = shape_report(run, PID, 'wrappers', bool(run.violations)) if ok else []
+    # "each execute call allocates a fresh result map" is T1's IReset: a changed engine skeleton breaks C06's premise too
+    import engfam
+    engfam.regen()
+    _g, diff, _l = engfam.gen_obligation() if ok else (True, [], "")
+    if diff and not run.violations:
+        run.report({"kind": "obligation", "symptom": "skeleton", "entries": diff}, {"obligation": "gen_is_hand (T1) for %s: the map handed back is fresh per call only if the skeleton starts with IReset" % diff,
+                                                                              "searched": "%d pool scenarios" % len(scs)},
+                   "C06: the skeleton of %s changed (result-map allocation is part of C06's premise) and no failing history was found" % ", ".join(diff), no_input=True)
+        bad_shape = bad_shape or diff
     if not ok and not run.violations:
         run.report({"kind": "proof", "theorem": PID}, {"theorem": "Props/C06.v", "log": log[-3000:]}, "C06: the Coq development no longer builds and no failing history was found", no_input=True)
     cov = run.coverage
